@@ -131,6 +131,7 @@ impl Scene for S {
         for (i, e) in t.log.iter().enumerate() {
             if let Ev::End { c: 1, i: opi, r: Res::Bool(b) } = e.ev {
                 let after = term_idx.is_some_and(|ti| i > ti);
+                crate::check::oblige(if after { "truthful-after-termination" } else { "truthful-before-termination" });
                 // which query was it? Running(..) answers are the negation
                 let is_running_query = self.is_running_query(opi);
                 let says_stopped = if is_running_query { !b } else { b };
@@ -221,6 +222,7 @@ pub fn property() -> Property {
     Property {
         id: "C14",
         cases,
+        clauses: &["truthful-after-termination", "truthful-before-termination"],
         assumptions: &["termination = the step in which the actor task ends (its stop notifier has fired or been dropped by then)"],
     }
 }
